@@ -8,6 +8,7 @@ require (
 )
 
 require (
+	github.com/go-sql-driver/mysql v1.3.1-0.20170715192408-3955978caca4 // indirect
 	github.com/gogo/protobuf v1.1.2-0.20180914054005-e14cafb6a2c2 // indirect
 	github.com/golang/protobuf v1.4.2 // indirect
 	github.com/graphql-go/graphql v0.4.19-0.20160928141709-8c317402d1b7 // indirect
